@@ -248,6 +248,24 @@ var profiles = []profile{
 				return []string{"ZRANGE", key, "0", "-1", "WITHSCORES"}
 			}
 		}},
+	{"xstream", func(k []string) [][]string { return nil },
+		func(r *rand.Rand, k []string, u string) []string {
+			key := k[r.Intn(2)]
+			// explicit ids in a small range, distinct per value: concurrent XADDs collide on "not greater than the top"
+			id := strconv.Itoa(1+r.Intn(6)) + "-" + strconv.Itoa(1+r.Intn(9))
+			switch r.Intn(10) {
+			case 0, 1, 2, 3:
+				return []string{"XADD", key, id, "f", u}
+			case 4, 5:
+				return []string{"XADD", key, "MAXLEN", strconv.Itoa(1 + r.Intn(3)), id, "f", u}
+			case 6:
+				return []string{"XADD", key, "NOMKSTREAM", id, "f", u}
+			case 7:
+				return []string{"DEL", key}
+			default:
+				return []string{"XRANGE", key, "-", "+"}
+			}
+		}},
 }
 
 // multi-key commands that are NOT required to be atomic: deadlock mode only
@@ -285,6 +303,7 @@ func main() {
 	outPath := flag.String("out", "hist.ndjson", "history file")
 	progress := flag.String("progress", "", "file receiving the number of the history in progress")
 	hbase := flag.Int("hbase", 0, "first history number")
+	only := flag.String("profile", "", "use only this profile (lin mode)")
 	flag.Parse()
 
 	impl.Init(0)
@@ -312,6 +331,13 @@ func main() {
 		srv := impl.NewSrv(1)
 		db := srv.Mgr.DBs[0]
 		pf := profiles[r.Intn(len(profiles))]
+		if *only != "" {
+			for _, q := range profiles {
+				if q.name == *only {
+					pf = q
+				}
+			}
+		}
 		churn := false
 		if *mode == "deadlock" {
 			pf = profiles[[]int{1, 2, 3}[r.Intn(3)]] // string, list, set: the families with multi-key commands
@@ -493,7 +519,7 @@ func main() {
 		}
 		// sequential read-back of every key, as further operations of the history
 		for _, k := range keys {
-			for _, c := range [][]string{{"TYPE", k}, {"GET", k}, {"LRANGE", k, "0", "-1"}, {"SMEMBERS", k}, {"HGETALL", k}, {"ZRANGE", k, "0", "-1", "WITHSCORES"}, {"EXISTS", k}} {
+			for _, c := range [][]string{{"TYPE", k}, {"GET", k}, {"LRANGE", k, "0", "-1"}, {"SMEMBERS", k}, {"HGETALL", k}, {"ZRANGE", k, "0", "-1", "WITHSCORES"}, {"XRANGE", k, "-", "+"}, {"EXISTS", k}} {
 				o := newOp(0, c)
 				run(o)
 			}
